@@ -362,9 +362,23 @@ impl Storage {
             }
         }
 
-        // The scripts and the block number from which the filters are synced are written together:
-        // if the process stopped between the two writes, a new script would stay registered while
-        // the blocks after its block number were never filtered for it.
+        // The scripts, the block number from which the filters are synced, and the removal of the
+        // pending matched blocks are written together: if the process stopped between these writes,
+        // a new script would stay registered while the blocks after its block number were never
+        // filtered for it, or the pending matched blocks, which were matched for the previous
+        // scripts only, would be indexed later and move the new script beyond unfiltered blocks.
+        //
+        // The pending matched blocks are discarded without being indexed, but the filters of their
+        // ranges have already been processed: sync those filters again, so no block is skipped for
+        // the scripts which are still registered.
+        if let Some((start_number, _, _)) = self.get_earliest_matched_blocks() {
+            let rewind_to = start_number.saturating_sub(1);
+            if rewind_to
+                < min_block_number.unwrap_or_else(|| self.get_min_filtered_block_number())
+            {
+                min_block_number = Some(rewind_to);
+            }
+        }
         if let Some(min_number) = min_block_number {
             batch
                 .put(
@@ -373,19 +387,18 @@ impl Storage {
                 )
                 .expect("batch put should be ok");
         }
+        let matched_blocks_key_prefix = Key::Meta(MATCHED_FILTER_BLOCKS_KEY).into_vec();
+        let mode = IteratorMode::From(matched_blocks_key_prefix.as_ref(), Direction::Forward);
+        for (key, _) in self
+            .db
+            .iterator(mode)
+            .take_while(|(key, _value)| key.starts_with(&matched_blocks_key_prefix))
+        {
+            batch.delete(key).expect("batch delete should be ok");
+        }
         #[cfg(ckb_light_client_verif)]
         crate::verif_hooks::point("write", "update_filter_scripts:batch");
         batch.commit().expect("batch commit should be ok");
-        // The pending matched blocks are going to be discarded without being indexed, but the
-        // filters of their ranges have already been processed: sync those filters again, so no
-        // block is skipped for the scripts which are still registered.
-        if let Some((start_number, _, _)) = self.get_earliest_matched_blocks() {
-            let rewind_to = start_number.saturating_sub(1);
-            if rewind_to < self.get_min_filtered_block_number() {
-                self.update_min_filtered_block_number(rewind_to);
-            }
-        }
-        self.clear_matched_blocks();
 
         if should_filter_genesis_block {
             let block = self.get_genesis_block();
@@ -485,22 +498,6 @@ impl Storage {
         #[cfg(ckb_light_client_verif)]
         crate::verif_hooks::point("write", "remove_matched_blocks:delete");
         self.db.delete(&key).expect("delete matched blocks");
-    }
-
-    fn clear_matched_blocks(&self) {
-        let key_prefix = Key::Meta(MATCHED_FILTER_BLOCKS_KEY).into_vec();
-        let mode = IteratorMode::From(key_prefix.as_ref(), Direction::Forward);
-        let mut batch = self.batch();
-        for (key, _) in self
-            .db
-            .iterator(mode)
-            .take_while(|(key, _value)| key.starts_with(&key_prefix))
-        {
-            batch.delete(key).expect("batch delete should be ok");
-        }
-        #[cfg(ckb_light_client_verif)]
-        crate::verif_hooks::point("write", "clear_matched_blocks:batch");
-        batch.commit().expect("batch commit should be ok");
     }
 
     /// the matched blocks must not empty
